@@ -388,8 +388,20 @@ fn derive_generators<G: AffineRepr>(protocol: &[u8], n: usize) -> Vec<G> {
 }
 
 fn ipa(ctx: &mut Ctx, rng: &mut ChaCha20Rng) {
+    let cfg = IpaS::gen_cfg(rng, false);
+    ipa_cfg(ctx, rng, cfg)
+}
+
+/// 4096 .. 16384 generators, supported degree anywhere below
+fn ipa_wide(ctx: &mut Ctx, idx: u64, rng: &mut ChaCha20Rng) {
+    let max_degree = [4095usize, 8191, 5000, 8192][(idx % 4) as usize];
+    let supported_degree = if rng.next_u32() % 2 == 0 { max_degree } else { range(rng, 1, max_degree) };
+    let cfg = Cfg { max_degree, num_vars: None, supported_degree, supported_hiding: 1, enforced: None };
+    ipa_cfg(ctx, rng, cfg)
+}
+
+fn ipa_cfg(ctx: &mut Ctx, rng: &mut ChaCha20Rng, cfg: Cfg) {
     type S = IpaS;
-    let cfg = S::gen_cfg(rng, false);
     let desc = json!({"cfg": cfg.json()});
     let w = match make_world::<S>(&cfg, rng) {
         Ok(w) => w,
@@ -436,8 +448,20 @@ fn ipa(ctx: &mut Ctx, rng: &mut ChaCha20Rng) {
 }
 
 fn hyrax(ctx: &mut Ctx, rng: &mut ChaCha20Rng) {
+    let cfg = HyraxS::gen_cfg(rng, ctx.is_thorough());
+    hyrax_cfg(ctx, rng, cfg)
+}
+
+/// Parameters for 14..24 variables (128..4096 generators): only setup and trim are run and judged - the
+/// generator list is cheap to produce and to re-derive at sizes no commit / open workload reaches.
+fn hyrax_wide(ctx: &mut Ctx, idx: u64, rng: &mut ChaCha20Rng) {
+    let nv = [16usize, 18, 14, 20, 22, 24][(idx % 6) as usize];
+    let cfg = Cfg { max_degree: 1, num_vars: Some(nv), supported_degree: 1, supported_hiding: 1, enforced: None };
+    hyrax_cfg(ctx, rng, cfg)
+}
+
+fn hyrax_cfg(ctx: &mut Ctx, rng: &mut ChaCha20Rng, cfg: Cfg) {
     type S = HyraxS;
-    let cfg = S::gen_cfg(rng, ctx.is_thorough());
     let desc = json!({"cfg": cfg.json()});
     let w = match make_world::<S>(&cfg, rng) {
         Ok(w) => w,
@@ -697,6 +721,8 @@ pub fn run(ctx: &mut Ctx) {
     ctx.run_cases("sonic/large", nl, |ctx, _i, rng| sonic::<E381>(ctx, rng));
     ctx.run_cases("ipa/large", nl, |ctx, _i, rng| ipa(ctx, rng));
     ctx.run_cases("hyrax/large", nl, |ctx, _i, rng| hyrax(ctx, rng));
+    ctx.run_cases("ipa/wide-setup", if ctx.is_thorough() { 8 } else { 2 }, |ctx, i, rng| ipa_wide(ctx, i, rng));
+    ctx.run_cases("hyrax/wide-setup", if ctx.is_thorough() { 12 } else { 6 }, |ctx, i, rng| hyrax_wide(ctx, i, rng));
     ctx.run_cases("pst13/large", nl / 2, |ctx, _i, rng| pst13(ctx, rng));
     set_large(false);
     if ctx.is_thorough() {
